@@ -361,6 +361,265 @@ def run_options(ctx, terms, metas):
             ctx.disagree("Cases_C12_split", cid, dict(code=c, replay=rep, stored=m["stored"], column=m["column"]))
 
 
+# ------------------------------------------------------------------ every creation route x centres given or made
+BOXES = [(10.0, 12.0, -1.0, 1.0), (0.0, 3.0, -41.0, -38.0), (100.0, 160.0, 86.0, 89.5), (200.0, 230.0, -89.5, -87.5),
+         (350.0, 359.9, -2.0, 2.0), (40.0, 41.0, 20.0, 20.5), (120.0, 150.0, -30.0, 30.0)]
+REFUSALS = ("contains no data", "do not match", "probe_size")
+
+
+def route_input(rng, route, mode):
+    """generator parameters (route 'random') or records (a data frame / file) + the patch-definition arguments"""
+    inp = dict(route=route, mode=mode)
+    if route == "random":
+        box = rng.choice(BOXES)
+        n = rng.choice([30, 60, 120, 250]) if mode == "num" else rng.choice([8, 12, 30, 60, 120])
+        inp.update(box=box, n=n, seed=rng.randrange(1, 10 ** 6), chunksize=rng.choice([None, None, 7, 16, n, n // 2 + 1]),
+                   weights=rng.choice([None, [0.5, 1.0, 2.0, 0.25]]), redshifts=rng.choice([None, [0.2, 0.3, 0.7, 0.5]]))
+        if mode == "num":
+            num = rng.choice([k for k in (2, 3, 4, 5) if 10 * k <= n])
+            inp.update(patch_num=num, probe_size=rng.choice([10 * num, 10 * num, max(10 * num, n // 2), n]))
+        else:
+            ncent = rng.choice([2, 3, 4, 5])
+            fx = [(k + rng.uniform(0.2, 0.8)) / ncent for k in range(ncent)]
+            cents = [((box[0] + (box[1] - box[0]) * f) % 360.0, box[2] + (box[3] - box[2]) * rng.uniform(0.15, 0.85)) for f in fx]
+            rng.shuffle(cents)                                            # centres in any order
+            inp.update(cents=cents)
+        return inp
+    ncent = rng.choice([2, 3, 4, 5])
+    ra0, dec0 = rng.choice([(30.0, 10.0), (359.5, -40.0), (120.0, 88.5), (250.0, -89.0), (0.2, 0.0)])
+    spacing = rng.choice([0.5, 1.0, 3.0])
+    cents = [offset(ra0, dec0, k * spacing, (k % 2) * spacing * 0.3) for k in range(ncent)]
+    rng.shuffle(cents)
+    scatter = rng.choice([0.3, 0.3, 0.7])
+    pts = []
+    for k in range(ncent):
+        size = rng.choice([1, 2, 5, 9, 14]) if mode != "num" else rng.choice([5, 9, 14, 20])
+        pts += cluster(rng, cents[k][0], cents[k][1], 1, spacing * 0.05) + cluster(rng, cents[k][0], cents[k][1], size - 1, spacing * scatter)
+    rng.shuffle(pts)
+    n = len(pts)
+    inp.update(pts=pts, n=n, chunksize=rng.choice([None, None, 3, 7, n, n + 5]),
+               weights=[rng.randrange(1, 33) / 8.0 for _ in pts] if rng.random() < 0.5 else None)
+    if mode == "num":
+        num = rng.choice([k for k in (2, 3, ncent) if 10 * k <= n] or [2])
+        inp.update(patch_num=num, probe_size=rng.choice([n, n, max(10 * num, n // 2)]))   # a probe that is / is not all of the input
+    else:
+        inp.update(cents=cents)
+    return inp
+
+
+def route_case(ctx, rng, idx, spec, rterms, rmetas, terms, metas):
+    """one catalog created through `route` with centres that are given (coordinates / a reference catalog) or made
+    (patch_num), and the catalog built from its stored records with patch_centers=<that catalog>"""
+    from yaw.randoms import BoxRandoms
+    route, mode, workers = spec["route"], spec["mode"], spec["workers"]
+    inp = route_input(rng, route, mode)
+    n = inp["n"]
+    observe = rng.choice(["created", "created", "reopened"])
+    refkind = rng.choice(["centres", "name"]) if mode == "catalog" else None
+    handed = rng.choice(["catalog", "catalog", "reopened", "coords"])       # what the second catalog gets as patch_centers
+    replay = dict(inp, workers=workers, observe=observe, refkind=refkind, second_gets=handed)
+    args = dict(max_workers=workers)
+    if inp["chunksize"] is not None:
+        args["chunksize"] = inp["chunksize"]
+    cid = ("route", idx)
+    kind = "route/%s/%s/%s/%s" % (route, mode, "seq" if workers == 1 else "par", observe)
+    ref = cat = second = None
+    sched = None
+    try:
+        try:
+            given = None
+            if mode == "num":
+                args.update(patch_num=inp["patch_num"], probe_size=inp["probe_size"])
+            else:
+                centers = impl.AngularCoordinates(np.deg2rad(np.asarray(inp["cents"])))
+                if mode == "catalog":
+                    # a reference catalog over the same region; 'name': its reported centres are the means of its records
+                    rp, rcol = [], []
+                    for k, c in enumerate(inp["cents"]):
+                        here = cluster(rng, c[0], c[1], rng.choice([1, 3]), 0.05)
+                        rp += here; rcol += [k] * len(here)
+                    if refkind == "name":
+                        ref = build(ctx, "routeref", rp, None, None, pid=rcol)
+                    else:
+                        ref = build(ctx, "routeref", rp, None, None, patch_centers=centers)
+                    args["patch_centers"] = ref
+                    given = ref.get_centers()
+                else:
+                    args["patch_centers"] = centers
+                    given = centers
+            cache = impl.fresh_dir(ctx, "route")
+            if workers > 1:
+                impl.set_threads(16)
+                sched = simpool.Schedule(rng.choice(["reverse", "random", "identity"]), seed=rng.randrange(10 ** 6))
+            try:
+                def create():
+                    if route == "random":
+                        gen = BoxRandoms(*inp["box"], seed=inp["seed"],
+                                         weights=None if inp["weights"] is None else np.asarray(inp["weights"]),
+                                         redshifts=None if inp["redshifts"] is None else np.asarray(inp["redshifts"]))
+                        return impl.Catalog.from_random(cache, gen, n, **args)
+                    cols = {"ra": [p[0] for p in inp["pts"]], "dec": [p[1] for p in inp["pts"]]}
+                    fargs = dict(args, ra_name="ra", dec_name="dec")
+                    if inp["weights"] is not None:
+                        cols["w"] = inp["weights"]; fargs["weight_name"] = "w"
+                    if route == "dataframe":
+                        return impl.Catalog.from_dataframe(cache, impl.make_df(cols), **fargs)
+                    return impl.Catalog.from_file(cache, write_input(ctx, rng, route, cols), **fargs)
+                if sched is not None:
+                    with simpool.patched(sched):
+                        cat = create()
+                        if observe == "reopened":
+                            cat = impl.Catalog(cat.cache_directory, max_workers=workers)
+                else:
+                    cat = create()
+                    if observe == "reopened":
+                        cat = impl.Catalog(cat.cache_directory, max_workers=1)
+            finally:
+                impl.set_threads(1)
+        except ValueError as e:
+            # a refusal is not a statement about the partition (a centre that attracts no record, a probe larger than the input)
+            if any(x in str(e) for x in REFUSALS):
+                ctx.bump("route-refused:%s/%s:%s" % (route, mode, str(e)[:28]))
+                return
+            raise
+        if sched is not None:
+            replay["orders"] = sched.log[:8]
+        meta_terms(ctx, cat, cid, terms, metas, mode="route/%s/%s" % (route, mode))
+        keys = [int(k) for k in cat.keys()]
+        got = cat.get_centers()
+        replay.update(reported_centres=got.data.tolist(), ids=keys, num_records=[int(x) for x in cat.get_num_records()])
+        if given is not None:
+            if keys != list(range(len(given))):
+                ctx.fail("c12-ids-not-0..N-1", "catalog from %d given centres via %s has patch ids %s" % (len(given), route, keys), replay, case=(cid, "ids"))
+                return
+            if not np.array_equal(got.data.view("u8"), given.data.view("u8")):
+                ctx.fail("c12-centres-not-the-given-ones", "reported centres differ from the given ones (order or value)", replay, case=(cid, "centres"))
+                return
+        elif keys != list(range(inp["patch_num"])):
+            ctx.count(key=cid, nontrivial=False, kind=kind)
+            ctx.disagree("c12-route-made-centres-ids", cid, dict(why="patch_num=%d gives patch ids %s" % (inp["patch_num"], keys), replay=replay))
+            return
+        # ---- the stored records: row of exact squared chords to the REPORTED centres, index of the storing patch
+        c3 = got.to_3d()
+        ras, decs, rows, stored = [], [], [], []
+        for k, pid in enumerate(keys):
+            data = cat[pid].load_data()
+            u = impl.AngularCoordinates(np.column_stack([data["ra"], data["dec"]])).to_3d()
+            for j in range(len(data)):
+                ras.append(float(data["ra"][j])); decs.append(float(data["dec"][j]))
+                rows.append(exact_row(u[j], c3)); stored.append(k)
+        m = len(stored)
+        if m != n or m >= TAG:
+            ctx.count(key=cid, nontrivial=False, kind=kind)
+            ctx.disagree("c12-route-records-lost", cid, dict(why="%d records requested, %d stored" % (n, m), replay=replay))
+            return
+        # ---- the same records with patch_centers=<this catalog>
+        refused2 = None
+        stored2 = list(stored)
+        try:
+            pc = {"catalog": cat, "reopened": impl.Catalog(cat.cache_directory, max_workers=1), "coords": got}[handed]
+            second = impl.Catalog.from_dataframe(impl.fresh_dir(ctx, "route2"), impl.make_df({"ra": ras, "dec": decs, "z": [(i + 1) / TAG for i in range(m)]}),
+                                                 ra_name="ra", dec_name="dec", redshift_name="z", degrees=False, patch_centers=pc, max_workers=1,
+                                                 **({} if rng.random() < 0.5 else {"chunksize": rng.choice([5, 11, m])}))
+        except ValueError as e:
+            if not any(x in str(e) for x in REFUSALS):
+                raise
+            refused2 = str(e)
+        if second is not None:
+            keys2 = [int(k) for k in second.keys()]
+            got2 = second.get_centers()
+            if keys2 != keys:
+                ctx.fail("c12-ids-not-0..N-1", "catalog with patch_centers=<catalog with %d patches> has patch ids %s" % (len(keys), keys2), replay, case=(cid, "ids2"))
+                return
+            if not np.array_equal(got2.data.view("u8"), got.data.view("u8")):
+                ctx.fail("c12-centres-not-the-given-ones", "catalog with patch_centers=<catalog> reports other centres than that catalog", replay, case=(cid, "centres2"))
+                return
+            seen = {}
+            for k2, pid in enumerate(keys2):
+                for zt in second[pid].load_data()["redshifts"]:
+                    t = float(zt) * TAG - 1.0
+                    if int(t) == t and 0 <= int(t) < m and int(t) not in seen:
+                        seen[int(t)] = k2
+            if len(seen) != m:
+                ctx.count(key=cid, nontrivial=False, kind=kind)
+                ctx.disagree("c12-route-records-not-traceable", cid, dict(why="%d of %d records found in the second catalog" % (len(seen), m), replay=replay))
+                return
+            stored2 = [seen[i] for i in range(m)]
+        use = [i for i in range(m) if rows[i] is not None]
+        if len(use) < m:
+            ctx.bump("near_tie_skipped", m - len(use))
+        urows = [rows[i] for i in use]
+        K = max([fr.denominator.bit_length() - 1 for r in urows for fr in r] + [0])
+        zrows = []
+        for r in urows:
+            ints = [fr * (1 << K) for fr in r]
+            assert all(x.denominator == 1 for x in ints)
+            zrows.append("[" + "; ".join("0x%x" % x.numerator for x in ints) + "]")
+        st, st2 = [stored[i] for i in use], [stored2[i] for i in use]
+        rterms.append("c12_route_case_z (%s)%%Z %s %s" % (fq.lst(zrows), fq.nlist(st), fq.nlist(st2)))
+        rmetas.append((cid, dict(replay=replay, rows=urows, stored=st, stored2=st2, refused2=refused2, route=route, mode=mode)))
+        ctx.count(key=(cid, route, mode, workers, inp["chunksize"], tuple(stored)), nontrivial=len(set(stored)) >= 2 and m > len(keys), kind=kind)
+        ctx.sample(dict(route=route, mode=mode, workers=workers, observe=observe, n=n, chunksize=inp["chunksize"], patch_num=inp.get("patch_num"),
+                        probe_size=inp.get("probe_size"), num_records=replay["num_records"], second_gets=handed), limit=3)
+    finally:
+        for c in (cat, second, ref):
+            if c is not None:
+                shutil.rmtree(str(c.cache_directory), ignore_errors=True)
+
+
+def run_routes(ctx, terms, metas):
+    """the clause 'its reported centres reproduce its own partition' for every creation route x way to define the centres"""
+    rng = ctx.rng
+    rterms, rmetas = [], []
+    specs = []
+    for mode in ["num", "centres", "catalog"]:                              # from_random has no patch_name
+        for workers in [1, 3]:
+            specs.append(dict(route="random", mode=mode, workers=workers))
+    specs += [dict(route="random", mode="num", workers=1), dict(route="random", mode="num", workers=3)]
+    for route, workers in [("dataframe", 1), ("parquet", 3), ("hdf5", 1), ("fits", 3)]:
+        specs.append(dict(route=route, mode="num", workers=workers))
+    specs += [dict(route="dataframe", mode="catalog", workers=3), dict(route="parquet", mode="centres", workers=1),
+              dict(route="fits", mode="catalog", workers=1)]
+    for _ in range(ctx.n(5, 150)):
+        route = rng.choice(["random"] * 4 + ["dataframe", "dataframe", "parquet", "hdf5", "fits"])
+        specs.append(dict(route=route, mode=rng.choice(["num", "num", "centres", "catalog"]), workers=rng.choice([1, 1, 3])))
+    for idx, spec in enumerate(specs):
+        route_case(ctx, rng, idx, spec, rterms, rmetas, terms, metas)
+    ctx.log("route cases: %d specs run, %d terms" % (len(specs), len(rterms)))
+    codes = ctx.shards("Cases_C12_route", HEADER, rterms, shard=6)
+    ctx.log("route cases: evaluated in Coq")
+    for (cid, m), c in zip(rmetas, codes):
+        rep = m["replay"]
+        if not c:
+            if m["refused2"] is not None:
+                ctx.disagree("c12-route-rebuild-refused", cid, dict(why=m["refused2"], replay=rep))
+            continue
+        if c & 16:
+            ctx.disagree("Cases_C12_route/length", cid, dict(code=c, replay=rep))
+            continue
+        how = "%s, centres %s" % ("from_random" if m["route"] == "random" else "from_dataframe" if m["route"] == "dataframe" else "from_file (%s)" % m["route"],
+                                  {"num": "made (patch_num=%s, probe_size=%s)" % (rep.get("patch_num"), rep.get("probe_size")),
+                                   "centres": "given as coordinates", "catalog": "given as a catalog"}[m["mode"]])
+        if c & 2:
+            # the statement fails on the first catalog: name the records (harness side, for the message only)
+            bad = [(i, p, min(range(len(row)), key=lambda j: row[j])) for i, (row, p) in enumerate(zip(m["rows"], m["stored"]))
+                   if not (p < len(row)) or any(row[p] > d for d in row)]
+            moved = sum(1 for a, b in zip(m["stored"], m["stored2"]) if a != b)
+            sig = "c12-partition-not-reproduced-made-centres" if m["mode"] == "num" else "c12-partition-not-reproduced"
+            ctx.fail(sig, "%s (%d worker(s), chunksize %s, %s): %d of %d stored records lie in a patch whose reported centre is not their nearest "
+                          "reported centre; (record, stored in patch, nearest reported centre): %s; the catalog built from the same records with "
+                          "patch_centers=<this catalog> %s"
+                     % (how, rep["workers"], rep["chunksize"], rep["observe"], len(bad), len(m["rows"]), bad[:5],
+                        ("was refused: %s" % m["refused2"]) if m["refused2"] is not None else "stores %d records in other patches" % moved), rep, case=cid)
+        if c & 4:
+            bad = [(i, p) for i, (row, p) in enumerate(zip(m["rows"], m["stored2"])) if not (p < len(row)) or any(row[p] > d for d in row)]
+            ctx.fail("c12-partition-not-reproduced", "from_dataframe with patch_centers=<catalog made by %s>: %d of %d records are stored in a patch whose reported "
+                                                     "centre is not their nearest reported centre: %s" % (how, len(bad), len(m["rows"]), bad[:5]), rep, case=cid)
+        if not (c & 6):
+            # model and implementation differ although every record sits with a nearest reported centre (cannot be a tie: those are skipped)
+            ctx.disagree("Cases_C12_route", cid, dict(code=c, replay=rep, stored=m["stored"], stored2=m["stored2"]))
+
+
 # ------------------------------------------------------------------ the guard with 2..4 catalogs
 EXTENT = {"compact": 0.04, "medium": 0.12, "wide": 0.3}      # half-size of the box of records around a centre / centre spacing
 INSIDE = [0.25, 0.49, 0.4999]                                 # displacement in units of the reference catalog's patch radius
@@ -770,6 +1029,8 @@ def run(ctx):
     nterms, nmetas = run_guard_many(ctx, cfg)
     # ---- several patch-definition options at once (precedence centres > name > num) ----
     run_options(ctx, terms, metas)
+    # ---- every creation route x centres given or made: the reported centres are the ones the partition used ----
+    run_routes(ctx, terms, metas)
     codes = ctx.shards("Cases_C12_meta", HEADER, terms, shard=200)
     for (cid, meta), c in zip(metas, codes):
         if not c:
